@@ -23,14 +23,13 @@ fn calculate_view_dimensions<T>(start: Coordinate, end: Coordinate, toodee: &imp
         num_cols = 0;
         num_rows = 0;
     }
+    if num_rows == 0 {
+        // An empty window has no cells, wherever it was requested. Don't derive an
+        // offset from `start`: for a window on the far edge it lies beyond the data.
+        return (0, 0, 0..0);
+    }
     let data_start = start.1 * stride + start.0;
-    let data_len = {
-        if num_rows == 0 {
-            0
-        } else {
-            (num_rows - 1) * stride + num_cols
-        }
-    };
+    let data_len = (num_rows - 1) * stride + num_cols;
     (num_cols, num_rows, data_start..data_start + data_len)
 }
 
